@@ -44,7 +44,7 @@ pub fn spaces(prop: &str, tier: Tier) -> Vec<Space> {
 /// Explicit-state exploration parts (not index-addressable): returns a JSON report.
 pub fn explore(prop: &str, tier: Tier) -> Option<J> {
     match prop {
-        "C05" | "C06" => Some(asmprops::run_explorer(prop, tier, false)),
+        "C05" | "C06" | "C07" => Some(asmprops::run_explorer(prop, tier, false)),
         "C01" | "C02" | "C17" | "C18" => Some(asmprops::run_explorer(prop, tier, true)),
         _ => None,
     }
